@@ -73,6 +73,18 @@ func genC11(t *rapid.T) *CaseC11 {
 			}
 		}
 	}
+	if rapid.IntRange(0, 59).Draw(t, "long") == 0 {
+		// long list: the seed's row of tiles and vertical cells (plus repeats), converted at its own zooms or coarser
+		n := rapid.SampledFrom([]int{33, 64, 65, 130, 257}).Draw(t, "nLong")
+		for i := 0; len(c.Boxes) < n; i++ {
+			nb := ref.Shift(seed, int64(i%17), int64(i/17), int64(i%5)-2)
+			if nb.Valid() {
+				c.Boxes = append(c.Boxes, nb)
+			} else {
+				c.Boxes = append(c.Boxes, seed)
+			}
+		}
+	}
 	c.OutH = clamp64(h+rapid.Int64Range(-6, 2).Draw(t, "doh"), 1, 31)
 	c.OutV = clamp64(v+rapid.Int64Range(-8, 3).Draw(t, "dov"), 0, 35)
 	if rapid.Bool().Draw(t, "same") {
@@ -155,6 +167,9 @@ func classifyC11(c *CaseC11) (bool, []string) {
 	}
 	if c.AltKey {
 		cl = append(cl, "altitude-key-variant")
+	}
+	if len(c.Boxes) >= 33 {
+		cl = append(cl, "long-list")
 	}
 	if len(c.Keys) > 0 {
 		cl = append(cl, "raw-keys")
